@@ -433,6 +433,13 @@ def rule_who(ctx, rep):
                       [found[x][0].where() for x in extra][:3])
 
 
+def rule_wake(ctx, rep):
+    """call_rcu_wake_up: reset the helper's futex word before FUTEX_WAKE, only when it is -1 (all flavors)"""
+    for fl in ALL:
+        F = FL[fl]
+        waitloop.check_wakers(rep, "C03.wake", fl, ctx.mod(F.lib, "perfn"), lambda name, ap: name == "call_rcu_data.futex")
+
+
 RULES = [
     ("C03.flags", rule_flags),
     ("C03.gp", rule_gp),
@@ -444,5 +451,6 @@ RULES = [
     ("C03.list", rule_list),
     ("C03.cb-nolock", rule_cb_nolock),
     ("C03.who", rule_who),
+    ("C03.wake", rule_wake),
 ]
 FLOORS = {}
